@@ -172,7 +172,9 @@ class Session:
             return f.read()
 
     def _req(self, data=None, timeout=3.0, headers=None):
-        req = urllib.request.Request('http://127.0.0.1:%d/' % self.port, data=data, headers=headers or {})
+        # GET: ask for every selected / matched item (the default limit is 100)
+        path = '/' if data is not None else '/?limit=1000000'
+        req = urllib.request.Request('http://127.0.0.1:%d%s' % (self.port, path), data=data, headers=headers or {})
         with urllib.request.urlopen(req, timeout=timeout) as f:
             return f.read()
 
@@ -305,7 +307,7 @@ DRIVERS = {'pipe': drv_pipe, 'race': drv_race}
 
 def run(name, tier, seed, ctx):
     if name not in DRIVERS:
-        import procs_tmux, procs_conv, procs_prev  # register the interactive drivers
+        import procs_tmux, procs_conv, procs_prev, procs_screen  # register the interactive drivers
     return DRIVERS[name](tier, seed, ctx)
 
 
@@ -324,6 +326,9 @@ def replay(rp, ctx):
     if pr.get('kind') == 'tmux-preview':
         import procs_prev
         return procs_prev.replay(rp, ctx)
+    if pr.get('kind') == 'tmux-screen':
+        import procs_screen
+        return procs_screen.replay(rp, ctx)
     if pr.get('kind') == 'tmux-conv':
         import procs_conv
         return procs_conv.replay(rp, ctx)
